@@ -64,6 +64,7 @@ def check(case, ctx):
         if min(abs(e[1]), abs(e[1] - math.pi)) < 1e-3:
             ctx.event("near-singular-euler")
 
+    how = case.get("as", "array")
     # history: the same cell object was used for another grain / another cell just before (and its results are
     # still held by the caller); the conversions of THIS grain must depend on the current arguments only
     cell_arg = cell
@@ -82,6 +83,9 @@ def check(case, ctx):
         holder[:] = cell
         cell_arg = holder
         ctx.event("previous-grain-with-same-cell-object")
+    elif S.is_int_typed(case["cell"]):
+        cell_arg = S.cell_arg(case["cell"], how == "array")
+        ctx.event("integer-typed-cell")
     # how the caller types its matrices: read-only float arrays, nested Python lists, or integers for an axis-aligned U
     how = case.get("as", "array")
     def typed(Mx):
